@@ -40,13 +40,14 @@ class ObsPredicate:
     name: str
     value_params: Set[int] = field(default_factory=set)   # positional indexes that receive a value
     nodes_params: Set[int] = field(default_factory=set)   # positional indexes that receive nodes whose outputs are tested
+    kinds: Set[str] = field(default_factory=set)          # 'output' (graph outputs) / 'nested' (captured by a nested graph)
 
 
 def observation_predicates(m: Module) -> Dict[str, ObsPredicate]:
     """Base predicates plus module functions that wrap one (two rounds)."""
     preds: Dict[str, ObsPredicate] = {
-        "_value_is_graph_output": ObsPredicate("_value_is_graph_output", {1}),
-        "_nested_graph_references_value": ObsPredicate("_nested_graph_references_value", {1}),
+        "_value_is_graph_output": ObsPredicate("_value_is_graph_output", {1}, set(), {"output"}),
+        "_nested_graph_references_value": ObsPredicate("_nested_graph_references_value", {1}, set(), {"nested"}),
     }
     for _ in range(3):
         changed = False
@@ -58,6 +59,7 @@ def observation_predicates(m: Module) -> Dict[str, ObsPredicate]:
             du = defuse(fi.node)
             vp: Set[int] = set()
             np_: Set[int] = set()
+            kinds: Set[str] = set()
             rets = [n for n in walk_no_nested(fi.node) if isinstance(n, ast.Return) and n.value is not None]
             if not rets:
                 continue
@@ -67,12 +69,15 @@ def observation_predicates(m: Module) -> Dict[str, ObsPredicate]:
                 nm = _last(call_name(c))
                 val_args: List[ast.AST] = []
                 node_args: List[ast.AST] = []
+                ck: Set[str] = set()
                 if nm in preds:
                     p = preds[nm]
                     val_args = [c.args[i] for i in p.value_params if i < len(c.args)]
                     node_args = [c.args[i] for i in p.nodes_params if i < len(c.args)]
+                    ck = set(p.kinds)
                 elif isinstance(c.func, ast.Attribute) and c.func.attr in OBS_METHODS:
                     val_args = [c.func.value]
+                    ck = {"output"}
                 else:
                     continue
                 # the call must influence the result: inside a return expr or an if that returns a constant
@@ -80,6 +85,7 @@ def observation_predicates(m: Module) -> Dict[str, ObsPredicate]:
                 influences = isinstance(st, ast.Return) or (isinstance(st, ast.If) and any(isinstance(x, ast.Return) for x in ast.walk(st)))
                 if not influences:
                     continue
+                kinds |= ck
                 for va in val_args:
                     cl = du.closure(names_in(va))
                     # through _node_outputs(candidate) of a loop variable over a parameter -> nodes param
@@ -99,7 +105,7 @@ def observation_predicates(m: Module) -> Dict[str, ObsPredicate]:
                         if pn in cl and pn not in ("graph", "nodes"):
                             np_.add(i)
             if vp or np_:
-                preds[fi.name] = ObsPredicate(fi.name, vp, np_)
+                preds[fi.name] = ObsPredicate(fi.name, vp, np_, kinds)
                 changed = True
         if not changed:
             break
@@ -111,6 +117,7 @@ class Observation:
     call: ast.AST                   # the observation expression (Call or Compare)
     groups: Set[str]                # names of node variables / collections whose outputs are tested
     attributed: bool                # False if the analysis could not tell what is being tested
+    kinds: Set[str] = field(default_factory=set)   # which observers the test covers: 'output' / 'nested'
 
 
 class PassFlow:
@@ -276,9 +283,11 @@ class PassFlow:
                 nm = _last(call_name(n))
                 groups: Set[str] = set()
                 matched = False
+                okinds: Set[str] = set()
                 if nm in self.preds:
                     matched = True
                     p = self.preds[nm]
+                    okinds = set(p.kinds)
                     for i in p.value_params:
                         if i < len(n.args):
                             groups |= self.owner_groups(n.args[i])
@@ -288,13 +297,19 @@ class PassFlow:
                                 groups |= self.group(x, at=n)
                 elif isinstance(n.func, ast.Attribute) and n.func.attr in OBS_METHODS:
                     matched = True
+                    okinds = {"output"}
+                    groups |= self.owner_groups(n.func.value)
+                elif isinstance(n.func, ast.Attribute) and n.func.attr in ("uses", "consumers") and not n.args:
+                    # onnx_ir usage tracking also sees consumers that sit in nested graphs
+                    matched = True
+                    okinds = {"nested"}
                     groups |= self.owner_groups(n.func.value)
                 if matched:
                     groups -= {"graph"}
-                    res.append(Observation(n, groups, bool(groups)))
+                    res.append(Observation(n, groups, bool(groups), okinds))
             elif isinstance(n, ast.Compare) and len(n.ops) == 1 and isinstance(n.ops[0], (ast.In, ast.NotIn)) and isinstance(n.comparators[0], ast.Name) and n.comparators[0].id in gout:
                 groups = self.owner_groups(n.left)
-                res.append(Observation(n, groups, bool(groups)))
+                res.append(Observation(n, groups, bool(groups), {"output"}))
         return res
 
     # ------------------------------------------------------------------ protection
